@@ -1,11 +1,12 @@
-/- C07 driver, document tier (Spec side only): abstract document -> verdict of `validDoc` + reported attributes.
+/- C07 driver, document tier (Spec side only): abstract document -> verdict of `validDoc` + reported content.
 
-   X <doctype> <ndecls> {EL <name> <spec> <natts> {<aname> <type> <dflt>}} <elem>
-   elem := E <name> <text 0|1> <nattrs> {<aname> <val>} <nchildren> {elem}
+   X <doctype> <standalone 0|1|2> <hasExt 0|1> <ndecls> {EL <name> <spec> <ext01> <natts> {<aname> <type> <dflt> <ext01>}}
+     <nents> {<ename> <ext01>} <elem>                         (standalone: 0 absent, 1 "no", 2 "yes")
+   elem := E <name> <text01> <ws01> <refs val> <nattrs> {<aname> <val> <padded01>} <nchildren> {elem}
    type := C | I | R | RS | N | NS | G:<t.t.t>           dflt := REQ | IMP | FIX:<val> | DEF:<val>
-   val  := t.t.t (decimal token ids) | -                 <spec> as in XV.Driver.ContentModel (E, A, M012, N, K…)
-   ->  "valid attrs=<…>"  |  "invalid:<class,class…> attrs=<…>"
-   attrs format = harness/hx_cm.cpp dumpAttrs: per element in document order "<eN,aK=v1 v2[!]…>" sorted by attribute
+   val  := t.t.t (decimal ids) | -                        <spec> as in XV.Driver.ContentModel (E, A, M012, N, K…)
+   ->  "valid dump=<…>"  |  "invalid:<class,…> dump=<…>"  |  "notwf:<class,…> dump=-"
+   dump format = harness/hx_cm.cpp dumpDom: per element in document order "<eN,aK=v1 v2[!]…|n>" sorted by attribute
 -/
 import XV.Driver.Util
 import XV.Driver.ContentModel
@@ -30,21 +31,21 @@ def parseDflt (s : String) : Option Dflt :=
 
 def parseAtts : Nat → List String → Option (List AttDef × List String)
   | 0, ts => some ([], ts)
-  | n + 1, an :: ty :: df :: ts =>
+  | n + 1, an :: ty :: df :: ex :: ts =>
     match an.toNat?, parseType ty, parseDflt df, parseAtts n ts with
-    | some a, some t, some d, some (rest, ts') => some (⟨a, t, d⟩ :: rest, ts')
+    | some a, some t, some d, some (rest, ts') => some (⟨a, t, d, ex == "1"⟩ :: rest, ts')
     | _, _, _, _ => none
   | _, _ => none
 
 def parseDecls : Nat → List String → Option (List ElemDecl × List String)
   | 0, ts => some ([], ts)
-  | n + 1, "EL" :: nm :: sp :: na :: ts =>
+  | n + 1, "EL" :: nm :: sp :: ex :: na :: ts =>
     match nm.toNat?, XV.Driver.ContentModel.parseSpec sp, na.toNat? with
     | some name, some (spec, _), some natts =>
       match parseAtts natts ts with
       | some (atts, ts1) =>
         match parseDecls n ts1 with
-        | some (rest, ts2) => some (⟨name, spec, atts⟩ :: rest, ts2)
+        | some (rest, ts2) => some (⟨name, spec, atts, ex == "1"⟩ :: rest, ts2)
         | none => none
       | none => none
     | _, _, _ => none
@@ -52,28 +53,36 @@ def parseDecls : Nat → List String → Option (List ElemDecl × List String)
 
 def parseAttrs : Nat → List String → Option (List Attr × List String)
   | 0, ts => some ([], ts)
-  | n + 1, an :: v :: ts =>
+  | n + 1, an :: v :: pd :: ts =>
     match an.toNat?, parseVal v, parseAttrs n ts with
-    | some a, some val, some (rest, ts') => some (⟨a, val⟩ :: rest, ts')
+    | some a, some val, some (rest, ts') => some (⟨a, val, pd == "1"⟩ :: rest, ts')
     | _, _, _ => none
+  | _, _ => none
+
+def parseEnts : Nat → List String → Option (List EntDecl × List String)
+  | 0, ts => some ([], ts)
+  | n + 1, nm :: ex :: ts =>
+    match nm.toNat?, parseEnts n ts with
+    | some a, some (rest, ts') => some (⟨a, ex == "1"⟩ :: rest, ts')
+    | _, _ => none
   | _, _ => none
 
 mutual
   def parseElem : Nat → List String → Option (Elem × List String)
     | 0, _ => none
-    | fuel + 1, "E" :: nm :: tx :: na :: ts =>
-      match nm.toNat?, na.toNat? with
-      | some name, some nattrs =>
+    | fuel + 1, "E" :: nm :: tx :: wsf :: rf :: na :: ts =>
+      match nm.toNat?, na.toNat?, parseVal rf with
+      | some name, some nattrs, some refs =>
         match parseAttrs nattrs ts with
         | some (attrs, nc :: ts1) =>
           match nc.toNat? with
           | some nchildren =>
             match parseElems fuel nchildren ts1 with
-            | some (cs, ts2) => some (.mk name (tx == "1") attrs cs, ts2)
+            | some (cs, ts2) => some (.mk name ⟨tx == "1", wsf == "1", refs⟩ attrs cs, ts2)
             | none => none
           | none => none
         | _ => none
-      | _, _ => none
+      | _, _, _ => none
     | _, _ => none
   def parseElems : Nat → Nat → List String → Option (List Elem × List String)
     | _, 0, ts => some ([], ts)
@@ -89,29 +98,40 @@ end
 
 def parseDoc (ws : List String) : Option Doc :=
   match ws with
-  | "X" :: dt :: nd :: ts =>
+  | "X" :: dt :: sa :: he :: nd :: ts =>
     match dt.toNat?, nd.toNat? with
     | some doctype, some ndecls =>
       match parseDecls ndecls ts with
-      | some (decls, ts1) =>
-        match parseElem (ts1.length + 1) ts1 with
-        | some (root, []) => some ⟨doctype, decls, root⟩
-        | _ => none
-      | none => none
+      | some (decls, ne :: ts1) =>
+        match ne.toNat? with
+        | some nents =>
+          match parseEnts nents ts1 with
+          | some (ents, ts2) =>
+            match parseElem (ts2.length + 1) ts2 with
+            | some (root, []) => some { doctype := doctype, decls := decls, root := root,
+                                        standalone := sa == "2", hasExt := he == "1", ents := ents }
+            | _ => none
+          | none => none
+        | none => none
+      | _ => none
     | _, _ => none
   | _ => none
 
 def tokStr (t : Nat) : String := if isNameTok t then s!"v{t}" else s!"9z{t}"
 
-def insertSorted (x : Nat × List Nat × Bool) : List (Nat × List Nat × Bool) → List (Nat × List Nat × Bool)
+def insertSorted (x : Nat × List Nat × Bool × Bool) :
+    List (Nat × List Nat × Bool × Bool) → List (Nat × List Nat × Bool × Bool)
   | [] => [x]
   | y :: ys => if x.1 ≤ y.1 then x :: y :: ys else y :: insertSorted x ys
 
-def showAttrs (r : List (Nat × List (Nat × List Nat × Bool))) : String :=
-  let s := String.join (r.map (fun (n, as) =>
+def valStr (v : List Nat) (rawPadded : Bool) : String :=
+  if rawPadded then " " ++ "  ".intercalate (v.map tokStr) ++ " " else " ".intercalate (v.map tokStr)
+
+def showDump (r : List (Nat × List (Nat × List Nat × Bool × Bool) × Nat)) : String :=
+  let s := String.join (r.map (fun (n, as, txt) =>
     let sorted := as.foldr insertSorted []
-    s!"<e{n}" ++ String.join (sorted.map (fun (a, v, d) =>
-      s!",a{a}=" ++ " ".intercalate (v.map tokStr) ++ (if d then "!" else ""))) ++ ">"))
+    s!"<e{n}" ++ String.join (sorted.map (fun (a, v, d, rp) =>
+      s!",a{a}=" ++ valStr v rp ++ (if d then "!" else ""))) ++ s!"|{txt}>"))
   if s.isEmpty then "-" else s
 
 def dedupStr : List String → List String → List String
@@ -122,8 +142,10 @@ def handle (line : String) : String :=
   match parseDoc (words line) with
   | none => "bad-op"
   | some d =>
+    let wf := dedupStr (wfViolations d) []
+    if !wf.isEmpty then "notwf:" ++ ",".intercalate wf ++ " dump=-" else
     let v := dedupStr (violations d) []
     let verdict := if validDoc d then "valid" else "invalid:" ++ ",".intercalate v
-    s!"{verdict} attrs={showAttrs (reportedAttrs d)}"
+    s!"{verdict} dump={showDump (reportedAttrs d)}"
 
 end XV.Driver.DtdValid
